@@ -159,7 +159,7 @@ class C06(Property):
             "ASCII up to 70000 chars, date-times with any zone and microsecond, non-ASCII text; non-trivial = value "
             "within 2 of a form/range boundary, multi-byte length form, or a required rejection; distinct (code, value)")
     assumptions = ("caches of write_struct are cleared before every case (history effects are C14's business)",
-                   "a non-minimal UVARI form counts as a deviation from the standard's encoding")
+                   "a non-minimal but decodable UVARI form is only reported in the class histogram, not as a violation")
 
     def enumerate(self, ctx):
         for c in enumerate_cases(ctx):
@@ -257,13 +257,13 @@ class C06(Property):
         elif code in INT_RANGES or code == 'STATUS':
             ok = dec == value
             if code == 'UVARI' and len(out) != RC.uvari_minimal_len(value):
-                viol.append(Violation("uvari-nonminimal", f"{value} encoded in {len(out)} bytes"))
+                labels.append('uvari-nonminimal-form')     # decodable and equal: reported in the histogram only
         elif code in ('IDENT', 'ASCII'):
             ok = dec == value
             if code == 'ASCII':
                 n, o2 = RC.dec_uvari(bytes(out), 0)
                 if o2 != RC.uvari_minimal_len(len(value)):
-                    viol.append(Violation("uvari-nonminimal", f"ASCII length {len(value)} prefix in {o2} bytes"))
+                    labels.append('uvari-nonminimal-form')
         elif code == 'DTIME':
             from vf.spec.expect import dt_instants, local_tz
             inst = RC.dtime_to_utc(dec, local_tz())
